@@ -89,6 +89,19 @@ def cases(tier, seed):
             out.append({"input": {"kind": "program", "family": fam, "params": ps, "pre": pre, "incr": incr, "fn": fn, "exact": exact}})
     # conditioned argument must be rejected (or right)
     out.append({"input": {"kind": "program_cond", "exact": True}})
+    # a functional variable defined from a draw in the init block, the drawn variable re-drawn in the loop (2 goals, one builder)
+    for func, fn in (("Cos", "cos(g)"), ("Sin", "sin(g)"), ("Exp", "exp(g)")):
+        for (fam0, ps0), (fam1, ps1) in ((("Normal", ["0", "1"]), ("Normal", ["1", "1"])), (("Uniform", ["0", "1"]), ("Normal", ["2", "4"])),
+                                       (("Normal", ["0", "1"]), ("Uniform", ["0", "2"]))):
+            out.append({"input": {"kind": "program_init", "func": func, "fn": fn, "init": [fam0, ps0], "loop": [fam1, ps1], "exact": True}})
+    # a functional variable that is read before it is reassigned in the loop body (value of the previous iteration)
+    for func, fn in (("Cos", "cos(g)"), ("Exp", "exp(g)")):
+        for order in (["y", "s"], ["s", "y"]):
+            out.append({"input": {"kind": "program_lag", "func": func, "fn": fn, "order": order, "exact": True}})
+    # a conditioned functional assignment: y = f(g) with probability q, else keeps its value
+    for func, fn in (("Exp", "exp(g)"), ("Cos", "cos(g)"), ("Sin", "sin(g)")):
+        for exact in (True, False):
+            out.append({"input": {"kind": "program_condfunc", "func": func, "fn": fn, "exact": exact}})
     return out
 
 
@@ -225,6 +238,12 @@ def run_case(case):
             res["sample"] = dict(inp)
         elif kind == "program":
             res = run_program(inp, stats, res)
+        elif kind == "program_lag":
+            res = run_program_lag(inp, stats, res)
+        elif kind == "program_init":
+            res = run_program_init(inp, stats, res)
+        elif kind == "program_condfunc":
+            res = run_program_condfunc(inp, stats, res)
         else:
             text = ("c = 0\ng = 0\nx = 0\nwhile true:\n    c = Bernoulli(1/2)\n    if c == 1:\n        g = Normal(0, 1)\n    end\n"
                     "    s = Sin(g)\n    x = x + s\nend\n")
@@ -299,3 +318,91 @@ def run_program(inp, stats, res):
         k = exc_name(e)
         stats["refusals"][k] = stats["refusals"].get(k, 0) + 1
     return res
+
+
+def _solve_and_compare(text, goals_truth, stats, res, exact, limit=90):
+    import mpmath as mp
+    import sympy
+    from .. import polar
+    from recurrences import RecBuilder
+
+    try:
+        with cpu_limit(limit if not THOROUGH else 300):
+            program = polar.normalize(polar.parse(text))
+            rb = RecBuilder(program)
+            for goal, truth in goals_truth:
+                sol, ex, _ = polar.solve(program, goal, rb=rb)
+                for n in range(0, 5):
+                    gv = mp.mpmathify(sympy.N(polar.at_n(sol, n), 50))
+                    want = truth(n)
+                    stats["evaluations"] += 1
+                    tol = mp.mpf("1e-20") if exact else mp.mpf("1e-14")
+                    if abs(gv - want) > tol * max(1, abs(want)):
+                        res["violations"].append({"sub": "E(%s)" % goal, "detail": {"program": text, "n": n, "exact_mode": exact,
+                                                                              "polar": mp.nstr(gv, 25), "true": mp.nstr(want, 25)}})
+                        break
+            stats["distinct_nontrivial"] = stats.get("distinct_nontrivial", 0) + 1
+    except CpuTimeout:
+        stats["refusals"]["timeout"] = 1
+    except Exception as e:
+        k = exc_name(e)
+        stats["refusals"][k] = stats["refusals"].get(k, 0) + 1
+    return res
+
+
+def run_program_init(inp, stats, res):
+    """s = f(G0) fixed by the init block; loop: g = G_n (iid, independent of G0); y = y + s*g.
+    E(y_n) = n m_s mu ;  E(y_n^2) = m_s2 (n var + n^2 mu^2)."""
+    import mpmath as mp
+
+    (f0, p0), (f1, p1) = inp["init"], inp["loop"]
+    text = ("g = %s(%s)\ns = %s(g)\ny = 0\nwhile true:\n    g = %s(%s)\n    y = y + s*g\nend\n"
+            % (f0, ", ".join(p0), inp["func"], f1, ", ".join(p1)))
+    res["sample"] = {"program": text}
+    env = {"sin": mp.sin, "cos": mp.cos, "exp": mp.exp}
+    f = lambda g: eval(inp["fn"], dict(env, g=g))
+    ms = dists.numeric_expect(f0, [F(p) for p in p0], f)
+    ms2 = dists.numeric_expect(f0, [F(p) for p in p0], lambda g: f(g) ** 2)
+    mu = dists.exact_moment(f1, [F(p) for p in p1], 1)
+    m2 = dists.exact_moment(f1, [F(p) for p in p1], 2)
+    mu, m2 = mp.mpf(mu.numerator) / mu.denominator, mp.mpf(m2.numerator) / m2.denominator
+    var = m2 - mu ** 2
+    return _solve_and_compare(text, [("y", lambda n: n * ms * mu), ("y**2", lambda n: ms2 * (n * var + n * n * mu ** 2)),
+                                     ("s", lambda n: ms)], stats, res, inp["exact"])
+
+
+def run_program_condfunc(inp, stats, res):
+    """y = f(g) with probability 1/2 (g ~ N(0,1) drawn unconditionally), else y keeps its value; x accumulates y."""
+    import mpmath as mp
+
+    text = ("c = 0\ng = 0\ny = 1\nx = 0\nwhile true:\n    c = Bernoulli(1/2)\n    g = Normal(0, 1)\n    if c == 1:\n        y = %s(g)\n    end\n"
+            "    x = x + y\nend\n" % inp["func"])
+    res["sample"] = {"program": text}
+    env = {"sin": mp.sin, "cos": mp.cos, "exp": mp.exp}
+    f = lambda g: eval(inp["fn"], dict(env, g=g))
+    m1 = dists.numeric_expect("Normal", [F(0), F(1)], f)
+    m2 = dists.numeric_expect("Normal", [F(0), F(1)], lambda g: f(g) ** 2)
+
+    def ey(n, m, y0=mp.mpf(1)):
+        v = y0
+        for _ in range(n):
+            v = m / 2 + v / 2
+        return v
+
+    def ex(n):
+        return sum(ey(i, m1) for i in range(1, n + 1))
+
+    return _solve_and_compare(text, [("y", lambda n: ey(n, m1)), ("y**2", lambda n: ey(n, m2)), ("x", ex)], stats, res, inp["exact"])
+
+
+def run_program_lag(inp, stats, res):
+    """y accumulates the value s had in the PREVIOUS iteration (s is read before it is reassigned): y_n = 5 + (n-1) m1 for n >= 1."""
+    import mpmath as mp
+
+    text = "y = 0\ns = 5\nwhile true:\n    g = Normal(0, 1)\n    y = y + s\n    s = %s(g)\nend\n" % inp["func"]
+    res["sample"] = {"program": text, "goal_order": inp["order"]}
+    env = {"sin": mp.sin, "cos": mp.cos, "exp": mp.exp}
+    f = lambda g: eval(inp["fn"], dict(env, g=g))
+    m1 = dists.numeric_expect("Normal", [F(0), F(1)], f)
+    truth = {"y": lambda n: mp.mpf(0) if n == 0 else 5 + (n - 1) * m1, "s": lambda n: mp.mpf(5) if n == 0 else m1}
+    return _solve_and_compare(text, [(g, truth[g]) for g in inp["order"]], stats, res, inp["exact"])
